@@ -137,6 +137,23 @@ impl WaitGraph {
 
 // OrderSuspension is now VmOrderSuspension in bytecode_vm.rs
 
+/// Quiescence summary returned by `Interpreter::verif_summary` (verification hook).
+#[cfg(tsrun_verif)]
+#[derive(Debug, Clone, PartialEq, Eq)]
+pub struct VerifSummary {
+    pub env_is_global: bool,
+    pub env_guards: usize,
+    pub call_stack: usize,
+    pub active_vm: bool,
+    pub pending_orders: usize,
+    pub cancelled_orders: usize,
+    pub order_responses: usize,
+    pub suspended_for_order: bool,
+    pub waiting_contexts: bool,
+    pub pending_program: bool,
+    pub pending_module_sources: usize,
+}
+
 /// The interpreter state
 pub struct Interpreter {
     // ═══════════════════════════════════════════════════════════════════════════
@@ -727,6 +744,25 @@ impl Interpreter {
     // ═══════════════════════════════════════════════════════════════════════════
     // Call Stack Depth
     // ═══════════════════════════════════════════════════════════════════════════
+
+    /// Read-only summary of the state that must be quiescent between runs
+    /// (verification hook, compiled only with `--cfg tsrun_verif`).
+    #[cfg(tsrun_verif)]
+    pub fn verif_summary(&self) -> VerifSummary {
+        VerifSummary {
+            env_is_global: Gc::ptr_eq(&self.env, &self.global_env),
+            env_guards: self.env_guards.len(),
+            call_stack: self.call_stack.len(),
+            active_vm: self.active_vm.is_some(),
+            pending_orders: self.pending_orders.len(),
+            cancelled_orders: self.cancelled_orders.len(),
+            order_responses: self.order_responses.len(),
+            suspended_for_order: self.suspended_for_order.is_some(),
+            waiting_contexts: self.wait_graph.has_waiting_contexts(),
+            pending_program: self.pending_program.is_some(),
+            pending_module_sources: self.pending_module_sources.len(),
+        }
+    }
 
     /// Get the current call stack depth.
     ///
